@@ -181,7 +181,10 @@ func formatOffset(position int64) eventbus.Offset {
 func (s *SQLiteStore) Append(ctx context.Context, event *eventbus.Event) (eventbus.Offset, error) {
 	start := time.Now()
 
-	result, err := s.appendStmt.ExecContext(ctx, event.Type, event.Data, event.Timestamp)
+	// Store the instant in UTC: the driver writes time.Time with its zone name and
+	// cannot parse it back when the name is empty, lower-case, long or contains a
+	// space, which made every later read of the log fail.
+	result, err := s.appendStmt.ExecContext(ctx, event.Type, event.Data, event.Timestamp.UTC())
 	if err != nil {
 		if s.metricsHook != nil {
 			s.metricsHook.OnAppend(time.Since(start), err)
